@@ -315,11 +315,34 @@ func solveOb(o *Obligation, qdir string, timeoutS int, thorough bool, expectSat 
 		return gt, all, tight
 	}
 	lite := writeQuery(qdir, base+".lite", o.BuildQuery(false, true))
-	r := runSolver("z3-new", lite, minInt(timeoutS, 5))
-	r.Solver = "z3-new(lite)"
-	all = append(all, r)
-	if r.Status == "unsat" && !thorough {
-		return r, all, lite
+	// both z3 versions at once: each decides in a fraction of a second goals on which the other needs its whole budget
+	type lr struct {
+		res SolverResult
+		tag string
+	}
+	lch := make(chan lr, 2)
+	for _, sv := range []string{"z3-new", "z3"} {
+		go func(sv string) {
+			x := runSolver(sv, lite, minInt(timeoutS, 5))
+			lch <- lr{x, sv + "(lite)"}
+		}(sv)
+	}
+	var r SolverResult
+	gotNew := false
+	for k := 0; k < 2; k++ {
+		x := <-lch
+		x.res.Solver = x.tag
+		all = append(all, x.res)
+		if x.res.Status == "unsat" && !thorough {
+			return x.res, all, lite
+		}
+		if x.tag == "z3-new(lite)" || !gotNew {
+			r = x.res
+			gotNew = gotNew || x.tag == "z3-new(lite)"
+		}
+		if x.res.Status == "unsat" {
+			r = x.res
+		}
 	}
 	ground := writeQuery(qdir, base+".ground", o.BuildQueryT(false, true, true, true, 2.0))
 	// in the retry pass (three times the budget, three obligations at a time) the ground variant gets half of it
@@ -355,8 +378,26 @@ func solveOb(o *Obligation, qdir string, timeoutS int, thorough bool, expectSat 
 	liteSat := r.Status == "sat"
 	full := writeQuery(qdir, base, o.BuildQuery(false, false))
 	if best.Status != "unsat" {
-		r2 := runSolver("z3-new", full, timeoutS)
-		all = append(all, r2)
+		// the complete query, on both z3 versions at once
+		fch := make(chan SolverResult, 2)
+		for _, sv := range []string{"z3-new", "z3"} {
+			go func(sv string) {
+				x := runSolver(sv, full, timeoutS)
+				x.Solver = sv
+				fch <- x
+			}(sv)
+		}
+		var r2 SolverResult
+		for k := 0; k < 2; k++ {
+			x := <-fch
+			all = append(all, x)
+			if k == 0 || x.Status == "unsat" || (x.Status == "sat" && r2.Status != "unsat") {
+				r2 = x
+			}
+			if x.Status == "unsat" {
+				break
+			}
+		}
 		best = r2
 		if (r2.Status == "unsat" || r2.Status == "sat") && !thorough {
 			return r2, all, full
